@@ -207,17 +207,70 @@ func GenProgram(r *kit.Rand, maxEv int) Program {
 		p.Initial = append(p.Initial, Child{Delta: uint64(r.PickInt(0, 0, 1, 3)), Secondary: r.Chance(2, 5), Tag: r.Intn(ntags + 1)})
 	}
 
+	// now and then an event at the largest time there is (a valid time value)
+	if r.Chance(1, 10) {
+		p.Initial = append(p.Initial, Child{Delta: ^uint64(0), Secondary: r.Chance(1, 3), Tag: ntags})
+	}
+
 	return p
 }
 
 // runEngine executes the case; ctl (optional) is the controller goroutine body.
 func runEngine(c *EngCase, ctl func(w *world)) (*world, *sched.Sched) {
+	return runEngineWith(c, ctl, false)
+}
+
+// fairChooser always runs the runnable goroutine that has waited longest: under
+// it a step cap cannot be blamed on a starved goroutine.
+func fairChooser(s *sched.Sched) func(n int) int {
+	last := map[string]int{}
+	step := 0
+
+	return func(n int) int {
+		step++
+		last[s.Last] = step
+		best := 0
+
+		for i, name := range s.Runnable {
+			if last[name] < last[s.Runnable[best]] {
+				best = i
+			}
+		}
+
+		return best
+	}
+}
+
+// neverReturns decides what a step cap means. The programs are finite, so a run
+// that reaches the cap either starved a goroutine (the seeded strategies are not
+// fair: inconclusive) or is an engine that spins without handling anything. The
+// case is run again under the fair strategy with ten times the budget; a cap
+// there is a run that does not return.
+func neverReturns(c *EngCase, ctl func(w *world)) (bool, int) {
+	q := *c
+	q.Decisions = nil
+	w, s := runEngineWith(&q, ctl, true)
+	handled := 0
+
+	for _, r := range w.recs {
+		handled += r.count
+	}
+
+	return s.CapHit, handled
+}
+
+func runEngineWith(c *EngCase, ctl func(w *world), fair bool) (*world, *sched.Sched) {
 	w := &world{c: c}
 	s := &sched.Sched{MaxSteps: 30000}
 	s.Choose = sched.ListChooser(c.Decisions, sched.MixedChooser(c.Seed, s))
 
 	if c.Decisions != nil {
 		s.Choose = sched.ListChooser(c.Decisions, nil)
+	}
+
+	if fair {
+		s.MaxSteps = 300000
+		s.Choose = fairChooser(s)
 	}
 
 	s.Finished = func() bool { return w.runDone && (ctl == nil || w.ctlDone) }
